@@ -71,9 +71,15 @@ func main() {
 	case "replay":
 		os.Exit(cmdReplay(os.Args[2:]))
 	default:
+		if h, ok := debugHooks[os.Args[1]]; ok {
+			h(mustWorld(), os.Args[2:])
+			return
+		}
 		usage()
 	}
 }
+
+var debugHooks = map[string]func(w *World, args []string){}
 
 func mustWorld() *World {
 	t0 := time.Now()
@@ -96,6 +102,9 @@ func mustWorld() *World {
 		os.Exit(2)
 	}
 	if os.Getenv("GOVC_VERBOSE") != "" {
+		for _, p := range w.PureUnverified {
+			fmt.Fprintln(os.Stderr, "pure/assigns-nothing declaration not confirmed by the effect analysis:", p)
+		}
 		fmt.Fprintf(os.Stderr, "loaded in %v: %d functions, %d contracts (%d unbound)\n", time.Since(t0), len(w.AllFns), len(w.Contracts.ByKey), len(w.Contracts.Unbound))
 	}
 	return w
@@ -186,4 +195,21 @@ func cmdFn(args []string) {
 		}
 	}
 	fmt.Printf("%d obligations in %d functions: %v (%.1fs)\n", len(all), len(fns), cnt, time.Since(t0).Seconds())
+}
+
+func init() {
+	debugHooks["emits"] = func(w *World, args []string) {
+		for _, k := range args {
+			f := w.Funcs[k]
+			if f == nil {
+				fmt.Println("no such function", k)
+				continue
+			}
+			fs, top := w.mods.MayEmit(f)
+			fmt.Printf("%s: top=%v\n", k, top)
+			for x := range fs {
+				fmt.Printf("   %q\n", x)
+			}
+		}
+	}
 }
